@@ -56,7 +56,7 @@ impl Judge for SemJudge {
     fn property(&self) -> &'static str {
         self.property
     }
-    fn judge(&self, m: &Module) -> JR {
+    fn judge(&self, m: &Module, cfg: Option<&cvx_core::gen_basic::CfgLite>) -> JR {
         if let Err(e) = region::check_module(m, self.opts) {
             return JR::Skip(format!("out-of-region: {}", e.split(':').next().unwrap_or("")));
         }
@@ -77,7 +77,7 @@ impl Judge for SemJudge {
             (CompileOutcome::Panic(p), _) => return JR::Fail { class: "compile-panic".into(), what: format!("the compiler panicked: {p}") },
             _ => return JR::Fail { class: "compile-none".into(), what: "no program".into() },
         };
-        let got = realrun::run_program(m, &prog, &natives, &RunCfg::default());
+        let got = realrun::run_program(m, &prog, &natives, &cfg.map(RunCfg::from).unwrap_or_default());
         match compare(&exp, &got) {
             Some((class, what)) => JR::Fail { class, what },
             None => {
